@@ -110,6 +110,7 @@ class RunOut:
         self.warm_s = 0.0
         self.run_s = 0.0
         self.task_seq = {}
+        self.last_gs = None
 
 
 def _call(out: EpisodeOut, name: str, fn, *a, budget=DEFAULT_BUDGET, slow=None):
@@ -134,7 +135,7 @@ def execute(plan: dict, replay: Optional[dict] = None, keep_graph: bool = False,
     spec = plan["spec"]
     t0 = _rt.time()
     K.begin_run(fair_k=plan.get("fair_k", 64), line_rate=plan.get("line_rate", 0.0), line_seed=plan["seed"] ^ 0x5151, fault_seed=plan["seed"] ^ 0xFA17,
-                replay=replay)
+                replay=replay, hot_rate=plan.get("hot_rate", 0.0))
     comp_rng = random.Random(plan["seed"] ^ 0xC0)
     try:
         try:
@@ -164,6 +165,7 @@ def execute(plan: dict, replay: Optional[dict] = None, keep_graph: bool = False,
             ro.detail = "".join(traceback.format_exception(None, e, e.__traceback__))[-1500:]
             return ro
         ro.nodes, ro.gs0 = nodes, gs0
+        plan = dict(plan, _ro=ro)
         ro.warm_s = _rt.time() - t0
         probes.clear_trace()
         t1 = _rt.time()
@@ -171,6 +173,9 @@ def execute(plan: dict, replay: Optional[dict] = None, keep_graph: bool = False,
             eo = EpisodeOut(ep)
             ro.episodes.append(eo)
             _episode(g, gs0, sup, ep, eo, clock, const, plan)
+            prev = getattr(eo, "last_gs", None)
+            if prev is not None:
+                ro.last_gs = prev
             if eo.status != "ok":
                 ro.status = eo.status
                 ro.detail = eo.detail
@@ -229,6 +234,12 @@ def _episode(g, gs0, sup, ep, eo: EpisodeOut, clock, const, plan):
         g.real_time_factor = ep.get("rtf", 0)
     j = ep["eps_id"]
     gs_init = gs0.replace(eps=onp.int32(j), rng=jax.tree_util.tree_map(lambda k: jax.random.fold_in(k, j), gs0.rng)) if ep.get("fold_rng", True) else gs0.replace(eps=onp.int32(j))
+    carried = getattr(plan.get("_ro"), "last_gs", None)
+    if ep.get("carry") and carried is not None:
+        # the user starts this episode from the graph state the previous episode ended with (seq/ts/state/inputs carried over),
+        # as rex's own test fixtures do; only the episode id is replaced
+        K.count("carry_over_start")
+        gs_init = carried.replace(eps=onp.int32(j))
     eo.gs0 = gs_init
     slow = ep.get("slow_user") or []
     budget = ep.get("budget", DEFAULT_BUDGET)
@@ -266,6 +277,10 @@ def _episode(g, gs0, sup, ep, eo: EpisodeOut, clock, const, plan):
                 gs = _call(eo, "run", g.run, gs, budget=budget)
                 extra += 1
         elif ep["api"] == "stop_only":
+            pass
+        try:
+            eo.last_gs = gs
+        except NameError:
             pass
         ending = ep.get("ending", "stop")
         if ending in ("stop", "stop2"):
